@@ -647,3 +647,58 @@ _run_c33e = run
 def run(ctx):  # noqa: F811
     _run_c33e(ctx)
     r33_7(ctx, ctx.model)
+
+
+# ---------------------------------------------------------------------------------------------------------------- R33.8
+def r33_8(ctx, m):
+    R = "R33.8"
+    ctx.rule(R, "custom_map._generic_smap: all three documented forms of the axis specifications (None = unmapped, int = the same axis "
+                "for every leaf, tree) are expanded against the tree they describe: on a path where the specification is known to be "
+                "None it is not itself flattened/used as data (tree_flatten(None) is the empty list and pairs with nothing), the "
+                "per-leaf list is built from the mapped output / input", floor=1)
+    from ..util import cfg_of, find_nodes, known_atoms
+    fi = m.func("nifty.re.custom_map", "_generic_smap", required=False)
+    if fi is None:
+        ctx.und(R, "nifty.re.custom_map::_generic_smap", "function missing", "nifty/re/custom_map.py")
+        return
+    ctx.saw_func(fi)
+    cfg = cfg_of(fi)
+    rd = cfg.reaching_defs(params=fi.params())
+    n = 0
+    for spec in ("out_axes",):  # jax.vmap itself refuses in_axes=None
+        if spec not in fi.params():
+            continue
+        tests = [t for t in cfg.nodes if t.kind == "test" and src(t.ast).replace(" ", "") == f"{spec}isNone"]
+        if not tests:
+            ctx.und(R, f"{fi.key}::{spec}=None", f"no branch for {spec} is None (vmap accepts it)", fi)
+            n += 1
+            continue
+        for node, call in find_nodes(cfg, lambda q: isinstance(q, ast.Call) and any(isinstance(a, ast.Name) and a.id == spec for a in q.args)):
+            at = known_atoms(cfg, node.id)
+            defs = (rd.get(node.id) or {}).get(spec) or ()
+            if any(cfg.nodes[d].kind != "entry" and cfg.nodes[d].ast is not None for d in defs):
+                continue  # re-bound on this path: no longer the None that was tested
+            if any(src(t).replace(" ", "") == f"{spec}isNone" and pol for t, pol in at):
+                n += 1
+                ctx.bad(R, f"{fi.key}::{spec} known to be None is not used as data", f"`{short(call, 60)}` under `{spec} is None`: flattens/uses None itself", fi, call)
+        # positive: the None branch builds the list from the described tree
+        for t in tests:
+            body = t.ast if isinstance(t.ast, ast.If) else None
+        ifs = [s for s in ast.walk(fi.node) if isinstance(s, ast.If) and src(s.test).replace(" ", "") == f"{spec}isNone"]
+        for s in ifs:
+            n += 1
+            uses_tree = any(isinstance(c, ast.Call) and call_name(c) in ("tree_map", "tree_flatten", "tree_leaves", "tree_structure")
+                            and any(isinstance(a, ast.Name) and a.id not in (spec,) and a.id in ("y", "x", "args") for a in ast.walk(c)) for b in s.body for c in ast.walk(b))
+            raises = any(isinstance(b, ast.Raise) for b in s.body)
+            ctx.check(R, f"{fi.key}::{spec}=None expands against the described tree", True if (uses_tree or raises) else None,
+                      f"branch body: {[short(b, 60) for b in s.body]}", fi, s)
+    if not n:
+        ctx.und(R, f"{fi.key}::axis specifications", "no None branch found", fi)
+
+
+_run_c33f = run
+
+
+def run(ctx):  # noqa: F811
+    _run_c33f(ctx)
+    r33_8(ctx, ctx.model)
